@@ -248,7 +248,7 @@ theorem ks_of_wfn {tbl : List Name} {τ : Nat → Nat} {st : Name} {B : List Rul
     have hY : Y ∈ tbl := htbl Y (hnames Y (by
       rw [hsplit]; simp [symsNames, SymN.names]))
     have hl : r.lhs ∈ tbl := htbl _ (namesN_spec hr).1
-    simp only [getElem?_indexIn hY, getElem?_indexIn hl, Option.getD_some]
+    simp only [indexIn_lookup hY, indexIn_lookup hl, Option.getD_some]
     exact hlt
 
 end ParolModel
